@@ -5,7 +5,7 @@ import random
 
 import asyncstdlib as A
 
-from ..loop import CTX, drive, Cancel, Suspend, rr_strategy
+from ..loop import CTX, drive, Cancel, Suspend, rr_strategy, FalsyCancel
 from ..probes import Item, SrcState, Plan, make_source, VLock
 from . import C08, C11, C12, C14
 
@@ -67,7 +67,7 @@ def run_tee(case, stats):
         st = SrcState(0, [Item(i, (0, i)) for i in range(case["len"])], Plan(case["susp"]), log=False)
         src = make_source(st, case["flav"])
         lock = VLock("tee")
-        exc = Cancel() if cancel_at is not None else None
+        exc = (FalsyCancel if cancel_at % 2 == 0 else Cancel)() if cancel_at is not None else None
         out = {}
         advanced = set()
         unstarted = set()  # children closed before their first advance (the recorded finding's mechanism)
@@ -145,7 +145,7 @@ def run_groupby(case, stats):
         CTX.reset()
         st = SrcState(0, [Item(k, (0, i)) for i, k in enumerate(case["keys"])], Plan(case["susp"]), log=False)
         src = make_source(st, case["flav"])
-        exc = Cancel() if cancel_at is not None else None
+        exc = (FalsyCancel if cancel_at % 2 == 0 else Cancel)() if cancel_at is not None else None
         out = {}
 
         async def akey(x):
@@ -350,7 +350,8 @@ def run_exitstack(case, stats):
     _, _, nsus = nested(None, None)
     viols, sigs = [], []
     for i in range(1, nsus + 1):
-        e1, e2 = Cancel(), Cancel()
+        kind = FalsyCancel if i % 2 == 0 else Cancel  # (every other cancellation object tests false)
+        e1, e2 = kind(), kind()
         r1, l1, _ = nested(i, e1)
         r2, l2, _, foreign = stacked(i, e2)
         stats["special_exitstack_cancellations"] += 1
